@@ -1,0 +1,28 @@
+//go:build verif
+// +build verif
+
+package parser
+
+// VerifParamMarkerOffsets runs the lexer of this package over sql (default
+// sql_mode) and returns the byte offsets of the parameter-marker tokens it
+// produces.  ok is false when the lexer reports an error, returns an invalid
+// token or stops before the end of the text.
+func VerifParamMarkerOffsets(sql string) (offsets []int, ok bool) {
+	s := NewScanner(sql)
+	offsets = []int{}
+	var v yySymType
+	for {
+		tok := s.Lex(&v)
+		if tok == 0 {
+			break
+		}
+		if tok == invalid {
+			return offsets, false
+		}
+		if tok == paramMarker {
+			offsets = append(offsets, v.offset)
+		}
+	}
+	_, errs := s.Errors()
+	return offsets, len(errs) == 0 && s.r.eof()
+}
